@@ -237,7 +237,7 @@ def normalize_pose(k, p):
 # consistent trajectory graphs (C05, C07, C08, C12, C16 ...)
 # --------------------------------------------------------------------------- #
 def trajectory_graph(rng, k, n, n_loops=0, n_lm=0, meas_t=0.0, meas_r=0.0, init_t=0.0, init_r=0.0,
-                     cond=10.0, cross=True, step=1.0, scale=5.0, lm_offsets=True, start=None, uturn=0.0, straight_init=False):
+                     cond=10.0, cross=True, step=1.0, scale=5.0, lm_offsets=True, start=None, uturn=0.0, straight_init=False, share_landmark_guess=False, lm_init=None):
     """Ground-truth trajectory of n poses of kind k + odometry / loop / landmark measurements.
     Returns a spec (vertices hold the perturbed initial guess) with extra keys 'truth'."""
     kp = R.POINT_OF[k]
@@ -278,6 +278,10 @@ def trajectory_graph(rng, k, n, n_loops=0, n_lm=0, meas_t=0.0, meas_r=0.0, init_
         obs = rng.choice(n, size=min(n, 3), replace=False)
         for i in obs:
             off = (mild_pose(rng, k, 0.3) if lm_offsets else R.identity(k))
+            if lm_offsets and k in ("se2", "se3") and rng.random() < 0.25:
+                # a sensor frame at the body origin: exactly zero lever arm, rotated (or, sometimes, the exact identity)
+                nt0 = 2 if k == "se2" else 3
+                off = [0.0] * nt0 + (off[nt0:] if rng.random() < 0.8 else R.identity(k)[nt0:])
             z = R.vals(R.act(k, R.inv(k, R.oplus(k, truth[int(i)], off)), L))
             z = [x + rng.normal() * meas_t for x in z]
             edges.append({"type": "lm", "ids": [int(i), n + m], "info": spd(rng, R.CD[kp], cond).tolist(), "est": z,
@@ -293,10 +297,20 @@ def trajectory_graph(rng, k, n, n_loops=0, n_lm=0, meas_t=0.0, meas_r=0.0, init_
                 init[j] = [float(j) * step, 0.0, 0.0, 0.0, 0.0, 0.0, 1.0]
             else:
                 init[j] = [float(j) * step] + [0.0] * (cd - 1)
-    linit = [[x + rng.normal() * init_t for x in L] for L in lms]
+    linit = [[x + rng.normal() * (lm_init if lm_init is not None else init_t) for x in L] for L in lms]
+    share = None
+    if share_landmark_guess and len(lms) >= 2:
+        # all landmarks start from one common guess held in one pose object (landmarks enter linearly, any guess is fine)
+        c0 = [float(np.mean([L[j] for L in lms])) for j in range(len(lms[0]))]
+        linit = [list(c0) for _ in lms]
+        share = [[n + m for m in range(len(lms))]]
     vertices = [{"id": i, "kind": k, "pose": p, "fixed": i == 0} for i, p in enumerate(init)]
     vertices += [{"id": n + m, "kind": kp, "pose": p, "fixed": False} for m, p in enumerate(linit)]
-    return {"vertices": vertices, "edges": edges, "truth": truth + lms}
+    out = {"vertices": vertices, "edges": edges, "truth": truth + lms}
+    if share:
+        out["share"] = share
+        out["share_mode"] = str(rng.choice(["object", "array"]))
+    return out
 
 
 # --------------------------------------------------------------------------- #
@@ -438,6 +452,10 @@ def cluster_graph(rng, kinds=None, size=(2, 6), noise_t=0.05, noise_r=0.03, init
                     for a in rng.choice(len(ids), nobs, replace=False):
                         a = ids[int(a)]
                         off = mild_pose(rng, k, 0.5) if rng.random() < 0.8 else R.identity(k)
+                        if k in ("se2", "se3") and rng.random() < 0.2:
+                            nt0 = 2 if k == "se2" else 3
+                            off = [0.0] * nt0 + off[nt0:]
+                            labels.add("landmark_offset_zero_translation_rotated")
                         z = R.vals(R.act(k, R.inv(k, R.oplus(k, truth[a], off)), L))
                         z = [x + rng.normal() * noise_t for x in z]
                         edges.append({"type": "lm", "ids": [a, lid], "info": spd(rng, R.CD[kp], cond).tolist(), "est": z, "est_kind": kp,
@@ -547,6 +565,11 @@ def cluster_graph(rng, kinds=None, size=(2, 6), noise_t=0.05, noise_r=0.03, init
         k0, ids0 = clusters[0]
         j = next(i for i, v in enumerate(vertices) if v["id"] in ids0)
         vertices[0], vertices[j] = vertices[j], vertices[0]
+    if rng.random() < 0.15:
+        # fixed flags given as 0/1 integers (the repository's own tests do this) - truthiness is what counts
+        for v in vertices:
+            v["fixed"] = int(bool(v["fixed"]))
+        labels.add("fixed_flags_as_int")
     spec = {"vertices": vertices, "edges": edges, "truth_by_id": {str(k): v for k, v in truth.items()}}
     if share:
         spec["share"] = share
